@@ -214,6 +214,8 @@ static std::vector<OpD> buildOps() {
   for (auto& s : seqs(2, N)) if (s.size() == 2) for (int me = 0; me < 2; ++me) o.push_back({4, s, (double)me, "T.deleteParameters(" + lst(s, true) + ",mustExist=" + str(me) + ")"});
   for (auto& s : seqs(3, 4)) if (s.size() >= 2) o.push_back({5, s, 0, "T.deleteParameters(indices " + lst(s, false) + ")"});
   for (auto& s : seqs(2, N)) { o.push_back({6, s, 0, "D = T.createSubList(" + lst(s, true) + ")"}); o.push_back({8, s, 0, "D = T.shareSubList(" + lst(s, true) + ")"}); }
+  // a names vector that repeats a name: extraction is built by adding, so the repeat is refused (createSubList) or turns into a value update (shareSubList)
+  for (auto& s : std::vector<std::vector<int>>{{0, 0}, {1, 0, 1}}) { o.push_back({6, s, 0, "D = T.createSubList(" + lst(s, true) + ")"}); o.push_back({8, s, 0, "D = T.shareSubList(" + lst(s, true) + ")"}); }
   for (auto& s : seqs(2, 3)) { o.push_back({7, s, 0, "D = T.createSubList(indices " + lst(s, false) + ")"}); o.push_back({9, s, 0, "D = T.shareSubList(indices " + lst(s, false) + ")"}); }
   for (int n = 0; n < N; ++n) o.push_back({10, {n}, 0, std::string("D = T.createSubList(\"") + NAMES[n] + "\")"});
   o.push_back({11, {}, 0, "D = copy-construct(T)"}); o.push_back({12, {}, 0, "D = T (assign)"}); o.push_back({13, {}, 0, "T = D (assign)"}); o.push_back({14, {}, 0, "D = T.getCommonParametersWith(D)"});
@@ -247,7 +249,8 @@ struct S2 : vf::SysBase {
       case 4: { for (int n : d.a) { int i = M.find(0, n); if (i < 0) { if (d.v != 0) { want = NOTFOUND; break; } continue; } M.L[0].erase(M.L[0].begin() + i); } got = classify([&] { T.deleteParameters(names(d.a), d.v != 0); }, what); break; }
       case 5: { bool bad = false; for (int i : d.a) if ((size_t)i >= M.L[0].size()) bad = true; if (bad) want = INDEX; else { std::vector<int> s = d.a; std::sort(s.rbegin(), s.rend()); for (int i : s) M.L[0].erase(M.L[0].begin() + i); }
         std::vector<size_t> idx(d.a.begin(), d.a.end()); got = classify([&] { T.deleteParameters(idx); }, what); atomic = true; break; }
-      case 6: case 8: case 10: { std::vector<Ent> r; for (int n : d.a) { int i = M.find(0, n); if (i < 0) { want = NOTFOUND; break; } const Ent& e = M.L[0][(size_t)i]; r.push_back({n, d.kind == 8 ? e.tok : M.fresh(M.tk[(size_t)e.tok].v, M.tk[(size_t)e.tok].constrained)}); }
+      case 6: case 8: case 10: { std::vector<Ent> r; for (int n : d.a) { int i = M.find(0, n); if (i < 0) { want = NOTFOUND; break; } const Ent& e = M.L[0][(size_t)i];
+          { bool rep = false; for (auto& q : r) if (q.name == n) rep = true; if (rep) { if (d.kind == 8) continue; want = DUP; break; } } r.push_back({n, d.kind == 8 ? e.tok : M.fresh(M.tk[(size_t)e.tok].v, M.tk[(size_t)e.tok].constrained)}); }
         if (want == NONE) M.L[1] = r;
         // the result is taken by construction from the returned temporary (assigning it would clone, by design of operator=)
         got = classify([&] { std::unique_ptr<ParameterList> r2; if (d.kind == 6) r2.reset(new ParameterList(T.createSubList(names(d.a)))); else if (d.kind == 8) r2.reset(new ParameterList(T.shareSubList(names(d.a)))); else r2.reset(new ParameterList(T.createSubList(std::string(NAMES[d.a[0]])))); X[1] = std::move(r2); }, what); break; }
